@@ -20,6 +20,8 @@ for d in sorted(glob.glob(os.path.join(V, "seeded", "C*-*"))):
     r = res.get(sid)
     if r:
         how = "no"
+        if r[3] == "neutralised":
+            how = "n/a: no longer breaks the property on the repaired tree (its own demo passes)"
         if r[3] == "yes":
             how = "impl-oracle (S) with replay" if "(impl-oracle)" in (r[5] if len(r) > 5 else "") else \
                   ("proof/tie broken, no-failing-input-found" if "no-failing-input-found" in r[4] else "yes")
@@ -42,9 +44,9 @@ out = ["# Seeded changes to Yawning/obfs4 and what the checks report",
 for r in rows:
     out.append("| %s | %s | %s | %s | %s | %s | %s |" % r)
 n_ind = [r for r in rows if r[2].startswith("independent")]
-caught = [r for r in n_ind if not r[5].startswith("no")]
-out += ["", "Independent changes: %d stored, %d reported by the quick check of their property, %d missed, %d not evaluated yet." % (
+caught = [r for r in n_ind if not r[5].startswith("no") and not r[5].startswith("n/a")]
+out += ["", "Independent changes: %d stored, %d reported by the quick check of their property, %d missed, %d no longer applicable (neutralised by a later fix: commit), %d not evaluated yet." % (
     len(n_ind), len([r for r in caught if r[5] != "not evaluated yet"]), len([r for r in n_ind if r[5] == "no"]),
-    len([r for r in n_ind if r[5] == "not evaluated yet"]))]
+    len([r for r in n_ind if r[5].startswith("n/a")]), len([r for r in n_ind if r[5] == "not evaluated yet"]))]
 open(os.path.join(V, "seeded", "README.md"), "w").write("\n".join(out) + "\n")
 print(out[-1])
